@@ -93,6 +93,24 @@ fn explore_one(case: &Case, sib: &Case, other: &Case, depth: usize, seed: u64) -
     if a.eq_dyn(&*a) && !(a.eq_dyn(&*a2) && a.eq_dyn(&*b)) {
         viol.push(("equality".to_string(), "A, its clone and a second value built from equal parameters do not compare equal after the exploration".to_string()));
     }
+    // values that compare equal are interchangeable: if A == sibling (another case of the same family and type), both
+    // must return the same values and consume the same words on the same stream
+    if a.eq_dyn(&*a) && a.eq_dyn(&*d) {
+        let mut r1 = ScriptRng::new(&words, 0);
+        let mut r2 = ScriptRng::new(&words, 0);
+        for i in 0..16 {
+            let (x, y) = (run_rng(&*a, &mut r1), run_rng(&*d, &mut r2));
+            let same = match (&x, &y) {
+                (Outcome::Done(p), Outcome::Done(q)) => p.v == q.v || (p.v.is_nan() && q.v.is_nan()) || p.bits == q.bits,
+                (Outcome::Panic(_), Outcome::Panic(_)) | (Outcome::Cap, Outcome::Cap) => true,
+                _ => false,
+            };
+            if !same || r1.pos != r2.pos {
+                viol.push(("equal-but-different".to_string(), format!("{} == {} (PartialEq), but sample #{} on the same stream is {:?} (cursor {}) for the first and {:?} (cursor {}) for the second", dbg0[0], dbg0[3], i, x, r1.pos, y, r2.pos)));
+                break;
+            }
+        }
+    }
     // sample_iter vs repeated sample
     {
         let mut r1 = ScriptRng::new(&words, 0);
